@@ -2,6 +2,7 @@
 package c19
 
 import (
+	"time"
 	"bytes"
 	"crypto"
 	"crypto/ed25519"
@@ -137,6 +138,19 @@ func (m *material) file(sig []string) []byte {
 
 // one real call: returns (outcome class, prompts)
 func realCall(id *agessh.EncryptedSSHIdentity, m *material, c *call, prompts *int, answer *string) string {
+	// a call that never returns (e.g. a lock left held by an earlier call on the same value) is an outcome too
+	type res struct{ s string }
+	done := make(chan res, 1)
+	go func() { done <- res{realCallInner(id, m, c, prompts, answer)} }()
+	select {
+	case r := <-done:
+		return r.s
+	case <-time.After(25 * time.Second):
+		return "hang"
+	}
+}
+
+func realCallInner(id *agessh.EncryptedSSHIdentity, m *material, c *call, prompts *int, answer *string) string {
 	*answer = c.Answer
 	r, err := age.Decrypt(bytes.NewReader(m.file(c.File)), id)
 	if err == nil {
@@ -274,6 +288,10 @@ func Run(tier string) {
 					before := prompts
 					out := realCall(id, m, cl, &prompts, &answer)
 					run.Eval(1)
+					if out == "hang" {
+						run.Violation("C19:outcome-depends-on-history:hang:"+s, fmt.Sprintf("call %d of [%s] (file for %v, answer %s) did not return within 25 s; on a fresh identity value the same call returns", j+1, s, cl.File, cl.Answer), rp)
+						return
+					}
 					asked := prompts - before
 					addressed := false
 					for _, a := range cl.File {
